@@ -11,6 +11,10 @@ use vref::name::{Labels, RefName};
 pub const OCTETS: [u8; 15] = [
     0x00, b'-', b'.', b'*', b'0', b'A', b'Z', b'[', b'\\', b'_', b'a', b'z', 0x7f, 0x80, 0xff,
 ];
+/// 12-octet alphabet of the quick tier: both neighbours of each letter range ('@' '[' and '`' '{',
+/// which are also the octets a wrong fold such as `| 0x20` / `& 0xdf` identifies with each other),
+/// the range ends, '.', NUL, and both sides of the sign bit.
+pub const QUICK12: [u8; 12] = [0x00, b'.', b'@', b'A', b'Z', b'[', b'`', b'a', b'z', b'{', 0x80, 0xff];
 /// 9-octet sub-alphabet (used where the full alphabet is too large).
 pub const SUB9: [u8; 9] = [0x00, b'.', b'A', b'Z', b'[', b'a', b'z', 0x80, 0xff];
 /// 5-octet sub-alphabet for the 3-label universe of the thorough tier.
